@@ -326,19 +326,34 @@ Definition backend_of_raw (x : obj * reply * option obj) : backend :=
    ====================================================================================== *)
 Inductive encoding :=
 | EncJson (is_collection : bool)   (* also every unregistered encoding name *)
-| EncSafeJson | EncString | EncNoop.
+| EncSafeJson | EncString
+| EncNoop                          (* encoding spelt exactly "no-op": pass-through proxy *)
+| EncNoopDecoder.                  (* another spelling of no-op ("No-Op"): the no-op DECODER behind
+                                      the ordinary proxy - statuses are classified as usual *)
 
-(* config: encoding.GetRegister().Get(name)(is_collection); proxy: Encoding == "no-op" *)
+(* strings.ToLower on the ASCII letters (encoding names are ASCII) *)
+Definition lower_ascii (c : ascii) : ascii :=
+  let n := N_of_ascii c in
+  if ((65 <=? n) && (n <=? 90))%N then ascii_of_N (n + 32) else c.
+Fixpoint lower (s : string) : string :=
+  match s with EmptyString => EmptyString | String c r => String (lower_ascii c) (lower r) end.
+
+(* config: the decoder is looked up under strings.ToLower(name) (unregistered: json);
+   proxy: the pass-through proxy is built iff the name is EXACTLY "no-op" *)
 Definition enc_of (name : string) (is_collection : bool) : encoding :=
   if str_eqb name "no-op" then EncNoop
-  else if str_eqb name "safejson" then EncSafeJson
-  else if str_eqb name "string" then EncString
-  else EncJson is_collection.
+  else
+    let l := lower name in
+    if str_eqb l "no-op" then EncNoopDecoder
+    else if str_eqb l "safejson" then EncSafeJson
+    else if str_eqb l "string" then EncString
+    else EncJson is_collection.
 
 Definition decode_as (e : encoding) (body : string) (parsed : option json) : option obj :=
   match e with
   | EncString => Some [("content", JStr body)]          (* every body decodes *)
   | EncNoop => Some []
+  | EncNoopDecoder => Some []                            (* the map is left nil *)
   | EncSafeJson =>
       match parsed with
       | Some (JObj m) => Some m
